@@ -70,7 +70,8 @@ Proof.
     + intros [Hx|Hx]; discriminate.
   - (* wake *)
     destruct (rpc s) eqn:Er; try discriminate. destruct (mtx s) eqn:Em; [discriminate|].
-    injection H as <-. constructor; cbn; try assumption; try tauto; try discriminate.
+    assert (Ew : worker s = true) by (apply Hrw; right; reflexivity). rewrite Ew in H.
+    injection H as <-. constructor; cbn; try assumption; try tauto; try discriminate; try reflexivity.
   - (* app dies *)
     injection H as <-. constructor; cbn; assumption.
   - (* move *)
@@ -158,7 +159,7 @@ Proof.
   - destruct (inflight s); [|discriminate]. injection H as <-. exists []. cbn. rewrite app_nil_r. reflexivity.
   - destruct (rpc s), (mtx s); try discriminate; destruct (worker s); injection H as <-; exists []; cbn; rewrite app_nil_r; reflexivity.
   - destruct (rpc s); try discriminate. destruct (0 <? pending s); injection H as <-; exists []; cbn; rewrite app_nil_r; reflexivity.
-  - destruct (rpc s), (mtx s); try discriminate. injection H as <-. exists []. cbn. rewrite app_nil_r. reflexivity.
+  - destruct (rpc s), (mtx s); try discriminate. destruct (worker s); injection H as <-; exists []; cbn; rewrite app_nil_r; reflexivity.
   - injection H as <-. exists []. cbn. rewrite app_nil_r. reflexivity.
   - destruct (rpc s), (mtx s), (worker s); try discriminate; injection H as <-; exists []; cbn; rewrite app_nil_r; reflexivity.
 Qed.
@@ -202,6 +203,18 @@ Proof.
     apply in_or_app; right; left; reflexivity.
 Qed.
 
+(* a stop that wakes up from its sleep and finds no thread (another stop completed meanwhile)
+   returns at once: it takes no mutex, touches neither queue nor log nor counters.  Stated for an
+   ARBITRARY state: in the runs of this one-stop model the situation does not arise (i_rw). *)
+Theorem wake_without_thread_returns s s' :
+  worker s = false -> step s AResetWake = Some s' ->
+  rpc s' = RDone /\ mtx s' = false /\ worker s' = false /\ queue s' = queue s /\ inflight s' = inflight s /\
+  pending s' = pending s /\ log s' = log s /\ accepted s' = accepted s /\ app s' = app s.
+Proof.
+  intros Hw H. cbn [step] in H. destruct (rpc s); try discriminate. destruct (mtx s); [discriminate|].
+  rewrite Hw in H. injection H as <-. cbn. repeat split; reflexivity.
+Qed.
+
 (* ------------------------------------------------------------------ F5: the hang ------------- *)
 Lemma stuck_b_spec s : stuck_b s = true <->
   app s = false /\ worker s = true /\ inflight s = None /\ queue s <> [].
@@ -223,7 +236,7 @@ Proof.
   - destruct (rpc s); try discriminate.
     assert (0 < pending s) by (rewrite (i_pend s I); destruct (queue s); [contradiction|cbn; lia]).
     destruct (Nat.ltb_spec 0 (pending s)); [|lia]. injection H as <-. repeat split; cbn; assumption.
-  - destruct (rpc s), (mtx s); try discriminate. injection H as <-. repeat split; cbn; assumption.
+  - destruct (rpc s), (mtx s); try discriminate. rewrite Hw in H. injection H as <-. repeat split; cbn; assumption.
   - injection H as <-. repeat split; cbn; assumption.
   - rewrite Hw in H. destruct (rpc s), (mtx s); discriminate.
 Qed.
